@@ -2,13 +2,17 @@
    Property theorems only.  Model: Model/JsGen.v (soyjs.Write as a list of
    chunks, tied byte for byte to the real output by the correspondence);
    the ECMAScript string-literal reader is Spec/Codec.v (js_read_literal_q).
-   No JavaScript grammar is formalised: syntactic validity of the whole file
-   rests on node compiling the real output (go/cmd/soyverif/c14.go). *)
+   The token grammar of the emitted JavaScript subset is Spec/JsSyntax.v
+   (lexers, the recogniser js_parse, bracket_balanced); the files the grammar
+   theorem talks about are those of Spec/JsShape.v (file_chk).  That grammar
+   is a subset of ECMAScript by construction and by test against V8
+   (go/cmd/soyverif/c14_wf.go), not by proof. *)
 (* source tie by translation: the lemmas of these files are obligations of this property *)
 From Soy Require Import Proofs.SourceTieJs Proofs.SourceTieJsScope Proofs.SourceTieJsText.
 From Soy Require Import Model.Bytes Model.Num Model.Values Model.Outcome Model.Ast Model.Utf8 Model.JsEscape
   Generated.Tables Model.JsGen Spec.Codec Spec.JsOut Proofs.Utf8Proofs Proofs.CodecProofs
-  Proofs.JsGenProofs Proofs.JsGenInv Proofs.JsGenLit Proofs.JsGenDef.
+  Proofs.JsGenProofs Proofs.JsGenInv Proofs.JsGenLit Proofs.JsGenDef
+  Spec.JsSyntax Spec.JsShape Proofs.JsWfBalance Proofs.JsWfFile Proofs.JsWfStr.
 Open Scope N_scope.
 
 (* ---------------- what the escaper guarantees for one literal ---------------- *)
@@ -197,3 +201,66 @@ Example C14_reader_rejects :
   js_read_literal_q 34 (b "a""b") = None /\ js_read_literal_q 39 (b "it's") = None
   /\ js_read_literal_q 39 [226; 128; 168] = None /\ js_read_literal_q 39 [97; 10] = None /\ js_read_literal_q 39 [92] = None.
 Proof. vm_compute. repeat split; reflexivity. Qed.
+
+(* ---------------- the generated file is a program of the token grammar ---------------- *)
+(* FULL STATEMENT (not proved as such): for every file the Soy parser and checker accept, the BYTES soyjs.Write
+   produces are a syntactically valid ECMAScript Script (ES5 formatter) / Module (ES6 formatter), with one function
+   definition per template under its qualified name.
+
+   PROVED, for every option record (formatter, message bundle, map-order oracle), fuel, file name and body: when the
+   body passes the decidable shape check file_chk of Spec/JsShape.v (expressions where expressions are expected,
+   names that are identifiers, the first namespace segment not reserved, finite floats, functions and directives soyjs
+   knows -- their table texts are NOT assumed well formed, the check runs the recogniser over them with a hole per
+   argument --, one default per switch; {msg} with and without a translation bundle, plurals included) and the
+   generator model succeeds, then
+     - the chunk list lexes (lex_chunks: every CText scanned byte by byte, a CStrLit one string token, a CName a
+       dotted identifier, a CNum a signed number, the header a comment),
+     - the recogniser js_parse of Spec/JsSyntax.v accepts the tokens (Script or Module according to the formatter),
+     - the function definitions of the parse are exactly the file's templates, in order, under their qualified
+       names (ES5) / ES6 identifiers,
+     - and the tokens are bracket balanced: every ) ] } closes the innermost open bracket, of its own kind.
+   MISSING for the full statement: (2) that the Soy parser's output
+   satisfies file_chk -- the harness evaluates file_chk on every accepted file it generates and reports how many
+   pass; (3) lex_bytes (render_chunks cs) = lex_chunks cs -- the harness compares the two token lists on every
+   generated file; (4) that the grammar is a subset of ECMAScript -- tested against V8 on the generated files and
+   on mutants, no formal ECMAScript grammar exists here. *)
+Theorem C14_gen_output_parses_partial : forall o fuel fk name body cs,
+  file_chk (o_fmt o) fk body = true -> gen_file o fuel name body = Ok cs ->
+  exists ts prog, lex_chunks cs = Some ts /\ js_parse (is_module (o_fmt o)) ts = Some prog
+    /\ prog_funs prog = map (fname o) (template_names body) /\ bracket_balanced ts = true.
+Proof. exact gen_file_parses. Qed.
+Print Assumptions C14_gen_output_parses_partial.
+
+(* whatever the recogniser accepts -- model tokens, tokens of real bytes, anything -- is bracket balanced *)
+Theorem C14_js_parse_balanced : forall md ts p, js_parse md ts = Some p -> bracket_balanced ts = true.
+Proof. exact js_parse_balanced. Qed.
+Print Assumptions C14_js_parse_balanced.
+
+(* a string literal as soyjs writes it -- quote, JSEscape of ANY byte string (valid UTF-8 or not, astral runes, quotes,
+   backslashes, line terminators, </script>), quote -- followed by anything: the byte lexer reads exactly one string
+   token and is back in normal mode right after the closing quote.  No template string can end its literal early or
+   swallow the text that follows it.  (This is the CStrLit case of "lex_bytes of the rendered chunks = lex_chunks".) *)
+Theorem C14_strlit_one_token : forall is_print q s rest, q = 39 \/ q = 34 ->
+  lex_text 0 LNormal (render_chunk is_print (CStrLit q s) ++ rest)
+  = option_map (fun '(ts, m) => (TStr :: ts, m)) (lex_text 0 LNormal rest).
+Proof. intros is_print q s rest Hq. exact (strlit_one_token is_print q Hq s rest). Qed.
+Print Assumptions C14_strlit_one_token.
+
+(* non-vacuity: the example file passes the check, its chunks and its BYTES lex to the same tokens, the parse
+   defines ns.a.t; and the recogniser rejects what JavaScript rejects: 5.length, a missing bracket, a second default *)
+Example C14_grammar_nonvacuous :
+  file_chk ES5 20 ex_body = true
+  /\ (exists cs ts, gen_file ex_opts 50 (b "f.soy") ex_body = Ok cs /\ lex_chunks cs = Some ts
+       /\ lex_bytes (render_chunks is_print_tbl cs) = Some ts
+       /\ js_parse false ts = Some [DFun (b "ns.a.t")])
+  /\ (exists ts, lex_bytes (b "x = a.length;") = Some ts /\ js_parse false ts = Some [])
+  /\ (exists ts, lex_chunks [CName (b "x"); CText (b " = "); CNum (b "5"); CText (b ".length;")] = Some ts /\ js_parse false ts = None)
+  /\ (exists ts, lex_bytes (b "x = 5.length;") = Some ts /\ js_parse false ts = None)
+  /\ (exists ts, lex_bytes (b "x = f(a;") = Some ts /\ js_parse false ts = None)
+  /\ (exists ts, lex_bytes (b "switch (x) { default: break; default: break; }") = Some ts /\ js_parse false ts = None)
+  /\ (exists ts, lex_bytes (b "export function f(opt_data, opt_sb, opt_ijData) { return 1; };") = Some ts
+       /\ js_parse false ts = None /\ js_parse true ts = Some [DFun (b "f")]).
+Proof.
+  split; [vm_compute; reflexivity|]. split; [eexists; eexists; split; [vm_compute; reflexivity|]; vm_compute; repeat split; reflexivity|].
+  repeat split; try (eexists; split; [vm_compute; reflexivity|]; vm_compute; repeat split; reflexivity); vm_compute; reflexivity.
+Qed.
